@@ -140,6 +140,14 @@ func (s *Server) RoundTrip(req *http.Request) (*http.Response, error) {
 			}
 			finish(st, f.Kind)
 			return mkResp(req, st, nil, ""), nil
+		case "status503-stall":
+			// a gateway that answers 503 and keeps the (chunked) error page open: the status alone is
+			// the failure, nobody has to read the body to its end
+			finish(503, f.Kind)
+			resp := mkResp(req, 503, nil, "text/html")
+			resp.Body = &stallBody{ctx: req.Context(), head: []byte("<html>upstream"), s: s}
+			resp.ContentLength = -1
+			return resp, nil
 		}
 	}
 	r := s.H(req, idx)
